@@ -65,6 +65,30 @@ CHECKS = {
   level="Generated programs x flag placements x nil/non-nil values; checks FUNC's result for nil sources, replacement vs merge semantics, ignored fields, T->*U / *T->U values and that *T->U needs the flag. Exploration.",
   note="Trusts the mark functions (deterministic constructors) and the rule model; undocumented zero-value interplay is left open in the oracle.",
   design="5/C11"),
+ "C17": dict(
+  engine="E-cli",
+  technique="property-based testing on the real CLI: rapid trees with faulty converters at every position, directory snapshots before/after fresh-process runs; rapid argument vectors against a grammar-derived exit-status oracle",
+  level="Generated trees x fault subsets x prior outputs; invariant over the file system (nothing changes on failure, exactly the complete outputs on success) and over exit status / streams. Exploration.",
+  note="The expected file bytes of successful runs come from in-process generation of the same tree (differential CLI vs library).",
+  design="5/C17"),
+ "C15": dict(
+  engine="E-cli",
+  technique="property-based testing on the real CLI: rapid output:file x output:package x existing-package x invocation-directory combinations against an independent model of the documented path / package-name rules, plus AST inspection of every emitted file",
+  level="Generated layouts; the expected path set, modes and package clauses are computed without goverter code and compared with what the CLI wrote (snapshot diff proves nothing else changed). Exploration.",
+  note="Package-name normalisation follows docs/reference/output.md (lower-cased last path element without non-alphanumerics and leading digits).",
+  design="5/C15"),
+ "C16": dict(
+  engine="E-cli",
+  technique="property-based testing over run histories: rapid (tags, constraint, layout, prior-output state) combinations; header-line oracle and regeneration == clean generation",
+  level="Generated histories input-change -> regenerate over absent / current / outdated / corrupted outputs and guarded user files; byte comparison with clean generation. Exploration.",
+  note="Relies on the build constraint line being intact, as the statement does.",
+  design="5/C16"),
+ "C09": dict(
+  engine="E-cli",
+  technique="stateful property-based testing: rapid histories of CLI runs (repetition in fresh processes, pattern permutation, cwd forms, relocation, input edits, output corruption) with the invariant 'equals clean generation of the current input'",
+  level="Generated inputs x histories; byte-wise equality of files, exit status and normalised diagnostics against a reference computed from a clean copy after every step. Hash-seed dependence is sampled by repeated fresh processes, not enumerated.",
+  note="Two defects found by this check were repaired (map-order dependent diagnostics, pattern-order dependent diagnostics).",
+  design="5/C09"),
 }
 
 def main():
